@@ -16,6 +16,12 @@ LABEL_KIND = {'s_acq': 'acq', 's_put': 'put', 's_w1': 'wput', 's_w2': 'wput', 's
 RT_ID = 500          # every real-time (clock) message carries this id: they are indistinguishable
 
 
+def _scribble(m):
+    if m is not None:
+        from . import core
+        core.scribble(m)
+
+
 def make_msg(mid, sender):
     import mido
     if mid == RT_ID:
@@ -103,7 +109,14 @@ class Setup:
         elif kind == 'multi':
             a, b = mp.EchoPort(), mp.EchoPort()
             qa, qb = S.instrument(a), S.instrument(b)
-            p = mp.MultiPort([a, b])
+            # the member ports are handed over as the caller's own list (emptied right afterwards) or
+            # as a one-shot iterable, in turn
+            if rng.random() < 0.5:
+                members = [a, b]
+                p = mp.MultiPort(members)
+                del members[:]
+            else:
+                p = mp.MultiPort(x for x in (a, b))
             self.q = S.instrument(p)
             self.keep += [a, b]
             self.member_q = [qa, qb]
@@ -150,7 +163,8 @@ class Setup:
                              len({v for v in sender_of.values() if v})) <= 1
             if hasattr(pq, '_parser'):
                 pq._parser.messages = S.AnnDeque()
-            pq._queue = S.AnnQueue(pq._queue)
+            if hasattr(pq, '_queue') and hasattr(pq._queue, 'put'):
+                pq._queue = S.AnnQueue(pq._queue)      # (otherwise: internals changed, public API only)
 
             class _Adapter:
                 closed = False
@@ -206,7 +220,13 @@ class Setup:
             out = []
             while True:
                 try:
-                    out.append(msg_id(self.pq._queue.q.get_nowait(), sender_of))
+                    if isinstance(getattr(self.pq, '_queue', None), S.AnnQueue):
+                        out.append(msg_id(self.pq._queue.q.get_nowait(), sender_of))
+                    else:
+                        m = self.pq.poll()
+                        if m is None:
+                            return out
+                        out.append(msg_id(m, sender_of))
                 except queue.Empty:
                     return out
         return [msg_id(m, sender_of) for m in self.q.raw()]
@@ -309,15 +329,21 @@ def run_program(kind, initq, prog, schedule=None, rng=None, policy='random',
                         sc.log(e='call', t=t, op={'poll': 'poll', 'recv': 'receive',
                                                   'iterp': 'iterp'}[o], m=0, lane=0)
                         try:
+            # what a receiver was given is its own: it stamps / transposes it at once
                             if o == 'poll':
                                 m = setup.recvp.poll()
                                 r = ('none', []) if m is None else ('msg', [msg_id(m, sender_of)])
+                                _scribble(m)
                             elif o == 'recv':
                                 m = setup.recvp.receive()
                                 r = ('none', []) if m is None else ('msg', [msg_id(m, sender_of)])
+                                _scribble(m)
                             else:
-                                r = ('list', [msg_id(m, sender_of)
-                                              for m in setup.recvp.iter_pending()])
+                                ids = []
+                                for m in setup.recvp.iter_pending():
+                                    ids.append(msg_id(m, sender_of))
+                                    _scribble(m)
+                                r = ('list', ids)
                         except S.Hang:
                             r = ('raise:Hang', [])
                         except Exception as e:
@@ -338,61 +364,68 @@ def run_program(kind, initq, prog, schedule=None, rng=None, policy='random',
                     started.add(t)
                     sc.step(t)
 
-            choices = []      # (chosen, runnable, awake, last) per step, when record=True
-            last = None
-            if record:
-                for t in list(sc.ts):
-                    start_only(t)
-            if schedule is not None:
-                for i, t in enumerate(schedule):
-                    start_only(t)
-                    if record:
-                        run = sc.runnable()
-                        if t not in run:
+            stuck = None      # a thread entered a real blocking call the scheduler knows nothing of
+            choices = []
+            try:
+                choices = []      # (chosen, runnable, awake, last) per step, when record=True
+                last = None
+                if record:
+                    for t in list(sc.ts):
+                        start_only(t)
+                if schedule is not None:
+                    for i, t in enumerate(schedule):
+                        start_only(t)
+                        if record:
+                            run = sc.runnable()
+                            if t not in run:
+                                div += 1
+                                break
+                            awake = [x for x in run if sc.ts[x].pending[0] != 'sleep']
+                            choices.append((t, tuple(run), tuple(awake), last))
+                            last = t
+                        if not sc.enabled(t):
                             div += 1
-                            break
-                        awake = [x for x in run if sc.ts[x].pending[0] != 'sleep']
-                        choices.append((t, tuple(run), tuple(awake), last))
-                        last = t
-                    if not sc.enabled(t):
-                        div += 1
-                        continue
-                    performed = sc.step(t)
-                    if labels is not None and LABEL_KIND.get(labels[i]) != performed:
-                        div += 1
-            # fallback / policy phase
-            prio = {t: rng.random() for t in sc.ts}
-            guard = 0
-            while not sc.all_done():
-                for t in list(sc.ts):
-                    start_only(t)
-                run = sc.runnable()
-                if not run:
-                    break
-                guard += 1
-                if guard > budget * (len(sc.ts) + 1):
-                    break
-                # a thread about to sleep() lets the others run first
-                awake = [t for t in run if sc.ts[t].pending[0] != 'sleep']
-                if awake:
-                    run = awake
-                if record:
-                    choices.append((None, tuple(sc.runnable()), tuple(awake), last))
-                if policy == 'stay':
-                    t = last if last in run else run[0]
-                elif policy == 'random':
-                    t = rng.choice(run)
-                elif policy == 'pct':
-                    t = max(run, key=lambda x: prio[x])
-                    if rng.random() < 0.08:
-                        prio[t] = -rng.random()       # priority change point
-                else:
-                    t = run[0]
-                if record:
-                    choices[-1] = (t,) + choices[-1][1:]
-                last = t
-                sc.step(t)
+                            continue
+                        performed = sc.step(t)
+                        if labels is not None and LABEL_KIND.get(labels[i]) != performed:
+                            div += 1
+                # fallback / policy phase
+                prio = {t: rng.random() for t in sc.ts}
+                guard = 0
+                while not sc.all_done():
+                    for t in list(sc.ts):
+                        start_only(t)
+                    run = sc.runnable()
+                    if not run:
+                        break
+                    guard += 1
+                    if guard > budget * (len(sc.ts) + 1):
+                        break
+                    # a thread about to sleep() lets the others run first
+                    awake = [t for t in run if sc.ts[t].pending[0] != 'sleep']
+                    if awake:
+                        run = awake
+                    if record:
+                        choices.append((None, tuple(sc.runnable()), tuple(awake), last))
+                    if policy == 'stay':
+                        t = last if last in run else run[0]
+                    elif policy == 'random':
+                        t = rng.choice(run)
+                    elif policy == 'pct':
+                        t = max(run, key=lambda x: prio[x])
+                        if rng.random() < 0.08:
+                            prio[t] = -rng.random()       # priority change point
+                    else:
+                        t = run[0]
+                    if record:
+                        choices[-1] = (t,) + choices[-1][1:]
+                    last = t
+                    sc.step(t)
+            except S.SchedulerError as e:
+                stuck = str(e)
             hung = [t for t, st in sc.ts.items() if not st.done]
+            if stuck:
+                hung = hung or list(sc.ts)
             for t, st in sc.ts.items():
                 if st.done and st.exc is not None and not isinstance(st.exc, S.Hang):
                     raise st.exc
@@ -401,7 +434,7 @@ def run_program(kind, initq, prog, schedule=None, rng=None, policy='random',
             # device wire, member ports) is drained: nothing may be lost or doubled
             final_q = setup.final_queue(sender_of) if kind != 'pqueue' else None
             drained = None
-            if not hung:
+            if not hung and not stuck:
                 try:
                     drained = [msg_id(m, sender_of) for m in setup.recvp.iter_pending()]
                 except Exception as e:
